@@ -144,6 +144,7 @@ var (
 	notOfferedMu sync.Mutex
 	notOffered   = map[string]bool{}
 	answered     = map[string]bool{}
+	comparedBy   = map[string]int{}
 )
 
 // proxyEnv: the AWS SDK inside the proxy must not look for anything outside the sandbox.
@@ -458,6 +459,9 @@ func (p *prog) step(o *op) {
 			}
 			p.c.Distinct(o.kind + "|" + o.class)
 			p.c.Add("operations_compared", 1)
+			notOfferedMu.Lock()
+			comparedBy[o.kind]++
+			notOfferedMu.Unlock()
 			for _, d := range diffs {
 				if o.dom == "obj" && p.ignored(o, d.field) {
 					continue
@@ -602,7 +606,11 @@ func (p *prog) verifyStored(o *op, pOK bool) {
 			}
 			if !pOK && len(diffs) > 0 {
 				// the proxy reported a failure, yet the endpoint's object changed: one finding, whatever differs
-				p.violation(o.kind+":failure-reported-but-endpoint-changed", o, map[string]any{"proxy": "at the endpoint: " + diffs[0].p, "reference": diffs[0].d, "key": k, "probe": pb.name, "differing_fields": len(diffs)})
+				ec := ""
+				if o.eclass != "" && o.eclass != "valid" && o.eclass != "existing" {
+					ec = ":" + o.eclass
+				}
+				p.violation(o.kind+ec+":failure-reported-but-endpoint-changed", o, map[string]any{"proxy": "at the endpoint: " + diffs[0].p, "reference": diffs[0].d, "key": k, "probe": pb.name, "differing_fields": len(diffs)})
 				bad = true
 				diffs = nil
 			}
@@ -861,7 +869,7 @@ func Run(c *ev.Ctx) int {
 		laneProbe(c, w)
 		return 2
 	}
-	n := c.Pick(15, 400)
+	n := c.Pick(20, 400)
 	rs := c.Rng("programs")
 	type job struct {
 		id   string
@@ -915,6 +923,9 @@ func Run(c *ev.Ctx) int {
 	sort.Strings(an)
 	c.Set("not_offered", no)
 	c.Set("operations_answered", an)
+	notOfferedMu.Lock()
+	c.Set("compared_by_operation", comparedBy)
+	notOfferedMu.Unlock()
 	return c.Finish("differential: the same generated program (<= 40 steps: buckets, objects in every upload encoding, ranges, copies, tagging, listings with paging chains, multipart incl. part copy, ACL/policy/ownership/versioning, account-scoped requests) runs against the proxy gateway and an identical posix gateway; every operation the proxy answers (not 501) is compared field by field after normalisation; stored effects are read back from the endpoint directly; settings must survive a proxy restart; distinct = (operation, argument class) pairs compared", 60)
 }
 
